@@ -215,6 +215,9 @@ func obligMatches(pattern, name string) bool {
 	if i := strings.Index(name, "@"); i >= 0 && pattern == name[:i] {
 		return true
 	}
+	if i := strings.Index(name, "/c"); i >= 0 && obligMatches(pattern, name[:i]) {
+		return true
+	}
 	return false
 }
 
